@@ -56,6 +56,7 @@ class Engine(ExprMixin):
         self.on_yield = None
         self.no_init = set()
         self.class_alias = {}
+        self.names = {}
         self.dropped = {"print": 0, "warn": 0}
         self.externals_used = {}
         for f in files:
@@ -397,6 +398,9 @@ class Engine(ExprMixin):
             f = s.value.func
             if isinstance(f, ast.Name) and f.id == "print":
                 self.dropped["print"] += 1
+                if getattr(self, "eval_print_args", False):  # opt-in: the arguments are evaluated for their calls
+                    for a_ in s.value.args:
+                        self.eval(a_, env, cls)
                 return
             if isinstance(f, ast.Attribute) and f.attr == "warn" and isinstance(f.value, ast.Name) and f.value.id == "warnings":
                 self.dropped["warn"] += 1
